@@ -86,9 +86,11 @@ def judge_message(ctx, t, attrs, via_reader=True, delta=0, key=None):
                   f'bytes-differ:{key}', case, lambda: {'got': b[:16], 'ref': ref[:16], 'len': [len(b), len(ref)]})
     ctx.check('payload items are bytes', all(type(x) is int and 0 <= x <= 255 for x in b),
               f'non-byte-item:{key}', case, lambda: [x for x in b if not (type(x) is int and 0 <= x <= 255)][:5])
+    # the decoder is judged on well-formed input: mido's own encoding when it is right, else the reference's
+    wire = b if (known or b == ref) else ref
     for conv in (list, bytearray):
         try:
-            d = MetaMessage.from_bytes(conv(b))
+            d = MetaMessage.from_bytes(conv(wire))
             ok = d == m.copy(time=0) and type(d) is MetaMessage
             ctx.check('from_bytes(bytes) == message', ok, known or f'from_bytes-differs:{key}', case,
                       lambda: {'got': repr(d)[:200], 'want': repr(m)[:200]})
@@ -97,13 +99,13 @@ def judge_message(ctx, t, attrs, via_reader=True, delta=0, key=None):
                      f'{type(exc).__name__}: {exc}')
     if via_reader:
         try:
-            back = MidiFile(file=io.BytesIO(one_event_file(b, delta)))
+            back = MidiFile(file=io.BytesIO(one_event_file(wire, delta)))
             got = back.tracks[0][0]
             ctx.check('track reader == message', got == m and len(back.tracks[0]) == 2,
                       known or f'reader-differs:{key}', case,
                       lambda: {'got': repr(got)[:200], 'want': repr(m)[:200]})
             # meta payloads are not MIDI data bytes: clip=True must not touch them
-            got = MidiFile(file=io.BytesIO(one_event_file(b, delta)), clip=True).tracks[0][0]
+            got = MidiFile(file=io.BytesIO(one_event_file(wire, delta)), clip=True).tracks[0][0]
             ctx.check('track reader == message', got == m, known or f'reader-clip-differs:{key}', case,
                       lambda: {'got': repr(got)[:200], 'want': repr(m)[:200]})
         except Exception as exc:
